@@ -339,6 +339,29 @@ class _Progress:
             return e.func.attr
         return None
 
+    def _appliers(self) -> Dict[str, int]:
+        """Methods that run a callable they are given (`def _allowing_in(self, parse): ... return parse()`), mapped to
+        the position of that argument: the callable is called on every path to a normal exit."""
+        c = getattr(self, "_appliers_cache", None)
+        if c is not None:
+            return c
+        out: Dict[str, int] = {}
+        for name, m in self.methods.items():
+            if isinstance(m.node, ast.Lambda):
+                continue
+            ps = [a.arg for a in m.node.args.args if a.arg != "self"]
+            for i, p in enumerate(ps):
+                calls = [n for n in m.own_nodes() if isinstance(n, ast.Call) and isinstance(n.func, ast.Name) and n.func.id == p and not n.args]
+                if not calls:
+                    continue
+                cfg = self.ctx.facts.cfg(m)
+                ids = {id(c_) for c_ in calls}
+                blocked = {nd.id for nd in cfg.nodes if nd.ast is not None and any(id(x) in ids for x in ast.walk(nd.ast))}
+                if cfg.path_avoiding(cfg.entry.id, lambda nd: nd.id == cfg.exit.id, blocked, None) is None:
+                    out[name] = i
+        self._appliers_cache = out
+        return out
+
     def _call_effect(self, name: str, st: St, sink: Optional[Set]) -> St:
         if sink is not None and not st.c:
             sink.add((name, st.ne))
@@ -394,8 +417,19 @@ class _Progress:
                 st = self.expr(a, st, sink, certain)
             nm = self._self_method(e)
             if nm:
+                before = st
+                ap = self._appliers().get(nm)
+                if ap is not None and ap < len(e.args):
+                    # a helper that runs the callable it is given: the effect of that callable comes first
+                    a = e.args[ap]
+                    if isinstance(a, ast.Lambda):
+                        st = self.expr(a.body, st, sink, True)
+                    elif isinstance(a, ast.Attribute) and norm(a.value) == "self" and a.attr in self.methods:
+                        st = self._call_effect(a.attr, st, sink)
+                    else:
+                        st = _maybe_moved(st)
                 after = self._call_effect(nm, st, sink)
-                return after if certain else self._uncertain(after, st)
+                return after if certain else self._uncertain(after, before)
             return st
         for c in ast.iter_child_nodes(e):
             if isinstance(c, ast.expr):
